@@ -5,6 +5,7 @@ import (
 	"go/ast"
 	"go/parser"
 	"go/token"
+	"go/types"
 	"os"
 	"os/exec"
 	"path/filepath"
@@ -264,11 +265,16 @@ type stubInfo struct {
 	perNode      bool
 	serverStream bool
 	recv         string
+	result       string // the stub's (first) result type, e.g. *AsyncResp
 }
+
+// futureGet maps a generated future / correctable type to the value type its typed Get returns.
+var futureGet map[string]string
 
 // analyse extracts, from generated sources, the client stubs and the server registrations.
 func analyse(sources map[string]string) (stubs map[string]*stubInfo, handlers map[string]string, err error) {
 	stubs, handlers = map[string]*stubInfo{}, map[string]string{}
+	futureGet = map[string]string{}
 	fset := token.NewFileSet()
 	for name, src := range sources {
 		f, perr := parser.ParseFile(fset, name, src, 0)
@@ -282,10 +288,16 @@ func analyse(sources map[string]string) (stubs map[string]*stubInfo, handlers ma
 			}
 			if fn.Recv != nil && len(fn.Recv.List) == 1 {
 				recv := exprName(fn.Recv.List[0].Type)
+				if fn.Name.Name == "Get" && (strings.HasPrefix(recv, "Async") || strings.HasPrefix(recv, "Correctable")) && fn.Type.Results != nil && len(fn.Type.Results.List) > 0 {
+					futureGet[recv] = types.ExprString(fn.Type.Results.List[0].Type)
+				}
 				if recv != "Configuration" && recv != "Node" {
 					continue
 				}
 				si := &stubInfo{recv: recv}
+				if fn.Type.Results != nil && len(fn.Type.Results.List) > 0 {
+					si.result = types.ExprString(fn.Type.Results.List[0].Type)
+				}
 				ast.Inspect(fn.Body, func(n ast.Node) bool {
 					switch x := n.(type) {
 					case *ast.KeyValueExpr:
@@ -411,6 +423,18 @@ func checkBinding(r *vp.InstResult, where string, fd *descriptorpb.FileDescripto
 			if !o.perNode && st.perNode {
 				addViol(r, "C17/per-node-arg", key, fmt.Sprintf("%s: %s passes a per-node function without per_node_arg", where, goName), nil)
 			}
+			if (o.quorumcall && o.async) || o.correctable {
+				// the typed Get of the future / correctable the stub returns yields the method's own result type
+				want := o.custom
+				if want == "" {
+					want = goTypeOf(fd, m.GetOutputType())
+				}
+				if got, ok := futureGet[strings.TrimPrefix(st.result, "*")]; !ok {
+					addViol(r, "C17/result-type", key, fmt.Sprintf("%s: stub %s returns %s, which has no typed Get", where, goName, st.result), nil)
+				} else if got != "*"+want {
+					addViol(r, "C17/result-type", key, fmt.Sprintf("%s: stub %s returns %s whose Get yields %s, but the method's result type is *%s (a reply of that type cannot be converted: the generated Get asserts the other type)", where, goName, st.result, got, want), nil)
+				}
+			}
 			if m.GetServerStreaming() != st.serverStream && o.correctable {
 				addViol(r, "C17/server-stream", key, fmt.Sprintf("%s: %s server streaming=%v but the stub sets ServerStream=%v", where, goName, m.GetServerStreaming(), st.serverStream), nil)
 			}
@@ -429,6 +453,24 @@ func checkBinding(r *vp.InstResult, where string, fd *descriptorpb.FileDescripto
 			addViol(r, "C17/handler-unknown-method", where+":"+lit, fmt.Sprintf("%s: a handler is registered for %q, which is not a method of the service", where, lit), nil)
 		}
 	}
+}
+
+// goTypeOf is the Go type expression the generated package uses for a message type: the Go name for a type of
+// the file's own package, emptypb.Empty for the well-known Empty, otherwise <last package element>.<Go name>.
+func goTypeOf(fd *descriptorpb.FileDescriptorProto, full string) string {
+	full = strings.TrimPrefix(full, ".")
+	if pkg := fd.GetPackage(); strings.HasPrefix(full, pkg+".") {
+		return goCamelCase(strings.TrimPrefix(full, pkg+"."))
+	}
+	if full == "google.protobuf.Empty" {
+		return "emptypb.Empty"
+	}
+	i := strings.LastIndexByte(full, '.')
+	pkg := full[:i]
+	if j := strings.LastIndexByte(pkg, '.'); j >= 0 {
+		pkg = pkg[j+1:]
+	}
+	return pkg + "." + goCamelCase(full[i+1:])
 }
 
 // goCamelCase is protoc-gen-go's identifier mangling (google.golang.org/protobuf/internal/strs).
@@ -510,8 +552,83 @@ func c17Synth(r *vp.InstResult) {
 			checkBinding(r, fmt.Sprintf("synthesised service %s / methods %s*", svc, n), spec.File(), src)
 		}
 	}
+	// result types with the same Go name from two packages: a local message Empty and google.protobuf.Empty
+	for oi, outs := range [][2]string{{"Empty", ".google.protobuf.Empty"}, {".google.protobuf.Empty", "Empty"}} {
+		for bi, b := range []gen.MethodSpec{{Quorumcall: true, Async: true}, {Correctable: true}, {Correctable: true, ServerStream: true}} {
+			a, c2 := b, b
+			a.Name, a.In, a.Out = "First", "Req", outs[0]
+			c2.Name, c2.In, c2.Out = "Second", "Req", outs[1]
+			spec := gen.ServiceSpec{Pkg: fmt.Sprintf("same%d_%d", oi, bi), Service: "Svc", Messages: []string{"Req", "Empty"}, Methods: []gen.MethodSpec{a, c2}}
+			c := &genCase{spec: spec}
+			if err := runPlugins(c, "protoc-gen-gorums", nil); err != nil {
+				r.Error = err.Error()
+				return
+			}
+			if c.res.Exit != 0 || c.res.Error != "" {
+				r.Outcomes["same-named result types: rejected with a diagnostic"]++
+				continue // a diagnostic is an acceptable answer to a combination the generator cannot express
+			}
+			src := map[string]string{}
+			for name, content := range c.res.Files {
+				src[filepath.Base(name)] = content
+			}
+			checkBinding(r, fmt.Sprintf("synthesised service with result types %s and %s (%s)", outs[0], outs[1], b.Label()), spec.File(), src)
+		}
+	}
 	r.States, r.Steps = r.Execs, r.Execs
 	r.Sample = map[string]any{"service": "my_service", "method": "read_value_2 (quorumcall+per_node_arg+custom_return_type)", "checked": "stub ReadValue_2 sends under pkg.my_service.read_value_2 and the server registration listens on the same name"}
+}
+
+// c17MultiFile: two proto files with the same service and method names but different gorums options are
+// generated in ONE plugin run (protoc is commonly invoked with several files). Every stub of either file
+// must use the call type and options declared for its own method.
+func c17MultiFile(r *vp.InstResult) {
+	legal := legalMethods()
+	for i := range legal {
+		for _, j := range []int{(i*7 + 3) % len(legal), (i + 1) % len(legal)} {
+			if i == j {
+				continue
+			}
+			specs := [2]gen.ServiceSpec{}
+			var fds []*descriptorpb.FileDescriptorProto
+			for k, idx := range []int{i, j} {
+				m := legal[idx]
+				m.Name = "Write"
+				specs[k] = gen.ServiceSpec{Pkg: fmt.Sprintf("storagev%d", k+1), Service: "Storage", Messages: []string{"Req", "Resp", "Custom"}, Methods: []gen.MethodSpec{m}}
+				fds = append(fds, specs[k].File())
+			}
+			deps, err := gen.Deps(fds[0], repoDescs())
+			if err != nil {
+				r.Error = err.Error()
+				return
+			}
+			res, err := gen.RunMulti(plugin("protoc-gen-gorums"), nil, fds, deps, "")
+			if err != nil {
+				r.Error = err.Error()
+				return
+			}
+			if res.Exit != 0 || res.Error != "" {
+				diag, _ := res.Diagnostic()
+				addViol(r, "C16/legal-rejected", "two files in one run", fmt.Sprintf("two files in one run (%s, %s) rejected: %s", legal[i].Label(), legal[j].Label(), firstLine(diag)), nil)
+				continue
+			}
+			for k := range specs {
+				src := map[string]string{}
+				for name, content := range res.Files {
+					if strings.HasPrefix(name, specs[k].Pkg+"/") || strings.Contains(name, "/"+specs[k].Pkg+"/") {
+						src[filepath.Base(name)] = content
+					}
+				}
+				if len(src) == 0 {
+					addViol(r, "C17/stub-missing", "two files in one run", fmt.Sprintf("no output for %s (files: %d)", specs[k].Pkg, len(res.Files)), nil)
+					continue
+				}
+				checkBinding(r, fmt.Sprintf("file %d of two generated in one run (%s | %s)", k+1, legal[i].Label(), legal[j].Label()), fds[k], src)
+			}
+		}
+	}
+	r.States, r.Steps = r.Execs, r.Execs
+	r.Sample = map[string]any{"request": "storagev1.Storage.Write (quorumcall) and storagev2.Storage.Write (multicast+per_node_arg) in one CodeGeneratorRequest", "checked": "each file's stub uses its own method's call type, options and name"}
 }
 
 // c17Sibling: the custom return type of a method is declared in ANOTHER proto file of the same Go package
@@ -704,14 +821,14 @@ func firstLine(s string) string {
 
 func init() {
 	checks["C17"] = &check{
-		rule:        "for every directory with committed *_gorums.pb.go files (dev in dev mode, benchmark, tests/*, examples): the package's proto descriptor is recovered from its .pb.go, the plugin built from the working tree regenerates the files and each is compared with the committed one as comment-free ASTs; template_static.go is compared with a fresh bundle of the static sources; for every method of every such service, in the committed and in the regenerated code, the client stub's method literal, the RegisterHandler literal and impl call, the runtime entry point, the receiver type, the per-node function and the ServerStream flag are compared with the descriptor and its options; the same binding analysis runs on freshly generated stubs of synthesised services (3 service spellings x 8 method spellings x 9 call variants) whose identifiers are not Go CamelCase; states = files / methods compared",
+		rule:        "for every directory with committed *_gorums.pb.go files (dev in dev mode, benchmark, tests/*, examples): the package's proto descriptor is recovered from its .pb.go, the plugin built from the working tree regenerates the files and each is compared with the committed one as comment-free ASTs; template_static.go is compared with a fresh bundle of the static sources; for every method of every such service, in the committed and in the regenerated code, the client stub's method literal, the RegisterHandler literal and impl call, the runtime entry point, the receiver type, the per-node function and the ServerStream flag are compared with the descriptor and its options; the same binding analysis runs on freshly generated stubs of synthesised services (3 service spellings x 8 method spellings x 9 call variants) whose identifiers are not Go CamelCase, on services whose future / correctable result types have the same name in two packages (the typed Get of the type a stub returns must yield the method's own result type, unless the file is rejected), and on 44 pairs of files with the same service and method names but different options generated in one plugin run; states = files / methods compared",
 		assumptions: []string{"the descriptor embedded in the committed .pb.go is the package's proto definition (protoc is not installed)", "dynamic binding (every generated zorums call variant executed against puppet servers) is the harness half of this check"},
 		gen: func(tier string) []instance {
 			dirs, err := findGenDirs()
 			if err != nil {
 				return []instance{{"error", func(r *vp.InstResult) { r.Error = err.Error() }}}
 			}
-			out := []instance{{"current/static-bundle", c17Bundle}, {"binding-synthesised/identifier-spellings", c17Synth}, {"binding-synthesised/custom-return-type-in-sibling-file", c17Sibling}, {"binding-synthesised/options-explicitly-false", c17ExplicitFalse}}
+			out := []instance{{"current/static-bundle", c17Bundle}, {"binding-synthesised/identifier-spellings", c17Synth}, {"binding-synthesised/custom-return-type-in-sibling-file", c17Sibling}, {"binding-synthesised/options-explicitly-false", c17ExplicitFalse}, {"binding-synthesised/two-files-in-one-run", c17MultiFile}}
 			for _, d := range dirs {
 				out = append(out, instance{"current/" + d.dir, c17Current(d)})
 				out = append(out, instance{"binding-committed/" + d.dir, c17Binding(d, false)})
